@@ -206,6 +206,18 @@ def build_view(rng, cls, content_len):
         r = ExeFSReader(bio, _load_icon=False)
         o = len(lead) + 0x200 + xinfo['view']['offset']
         return r.open('view'), content, True, (lambda: bio.getvalue()[:o] + b'|' + bio.getvalue()[o + len(content):]), [bio, r]
+    if cls == 'ncch-exefs-overlap':
+        # the two-keyslot ExeFS view of an NCCH (stitched from windows on two decrypting wrappers) when two secondary-key entries share
+        # bytes: still exactly as long as the section, every byte from where tell() says
+        from .. import ncchcommon as nc
+        from pyctr.type.ncch import NCCHSection
+        spec = nc.gen_spec(rng, small=True)
+        spec.update(mode='normal', method=rng.choice([1, 0x0A, 0x0B]), uses_seed=rng.random() < 0.3, romfs=False,
+                    exefs=[['.code', rng.choice([0x400, 0x600, 0x5F3])], ['logo', rng.choice([0x400, 0x230])], ['banner', 0x100]], slots=[0, 1, 2],
+                    exefs_overlap=['.code', 'logo'])
+        image, info, kwargs = nc.build(spec)
+        r, bio = nc.open_reader(image, kwargs, start=rng.choice([0, 0x200]))
+        return r.open_raw_section(NCCHSection.ExeFS), info['plain']['exefs'], False, None, [bio, r]
     if cls == 'ncch-fulldec':
         # the fully-decrypted view of an encrypted NCCH whose sections are separated by unclaimed space: a handle with a position
         # of its own, assembled from per-section pieces and raw gaps
@@ -227,7 +239,7 @@ def case_oracle(ctx, case, mr=None):
     rng = __import__('random').Random(case['vseed'])
     v, content, writable, probe, keep = build_view(rng, case['cls'], case['sz'])
     ops = case['ops']
-    if case['cls'] in ('reader-file', 'dpfs-file', 'ivfc-file', 'ncch-fulldec'):
+    if case['cls'] in ('reader-file', 'dpfs-file', 'ivfc-file', 'ncch-fulldec', 'ncch-exefs-overlap'):
         # the size of these views is known only once they are built: the history is drawn for the real size (same seed, so it replays)
         ops = fc.gen_ops(rng, len(content), len(case['ops']) + 2, writable=writable, whences=(0, 0, 1, 2, 2), spellings=case['cls'] in SPELLED)
         case = dict(case, ops=ops)
@@ -263,7 +275,50 @@ SPELLED = ('nested-window', 'closewrapper', 'ctr-on-window', 'twl-on-window', 'd
 READ_ONLY = ('window-ro', 'ctr-on-window-ro', 'twl-on-window-ro')
 
 
+def merger_edge_case(ctx, case):
+    """a merged file whose piece holds less than its declared size (a truncated container), and one whose piece refuses the read:
+    positions equal where data was taken from -- no byte of a later piece is handed out for an earlier position, a refused read moves nothing"""
+    import random
+    from pyctr.fileio import SplitFileMerger
+    from pyctr.crypto.engine import CryptoEngine
+    rng = random.Random(case['vseed'])
+    a_decl, a_have = 0x20, rng.choice([0, 1, 0x10, 0x1F])
+    A, B = pyenv.rbytes(rng, a_have), pyenv.rbytes(rng, 0x20)
+    fail = fail_fn(ctx, case)
+    ctx.stat('merger_edge_cases')
+    if case['edge'] == 'short':
+        m = SplitFileMerger([(io.BytesIO(A), a_decl), (io.BytesIO(B), 0x20)])
+        start = rng.choice([0, 0, a_have // 2])
+        m.seek(start)
+        got = m.read(rng.choice([0x30, -1, 0x21]))
+        after = m.tell()
+        logical = {i: A[i] for i in range(a_have)}
+        logical.update({a_decl + i: B[i] for i in range(0x20)})
+        wrong = [i for i, x in enumerate(got) if logical.get(start + i) != x]
+        if wrong or after != start + len(got):
+            fail('merger-short-piece', f'read across a piece that holds {a_have:#x} of its declared {a_decl:#x} bytes: byte {wrong[0] if wrong else "-"} of the result is not the byte '
+                 f'at position start+{wrong[0] if wrong else 0}, or the position ({after}) is not start + bytes returned ({start + len(got)})', 'bytes at their positions', got.hex()[:80])
+        m.seek(a_decl)
+        if m.read(0x10) != B[:0x10]:
+            fail('merger-short-piece', 'the piece behind the short one is not found at its declared position', B[:0x10].hex(), '?')
+    else:
+        e = CryptoEngine(setup_b9_keys=False)
+        locked = e.create_ctr_io(0x2C, io.BytesIO(bytes(0x20)), 0)          # no key in the slot: its reads are refused
+        m = SplitFileMerger([(io.BytesIO(B), 0x20), (locked, 0x20)])
+        start = rng.choice([0, 0x10, 0x1F])
+        m.seek(start)
+        try:
+            m.read(0x30)
+            fail('merger-refused-read', 'a read through a piece whose keyslot has no key returned', 'KeyslotMissingError', 'bytes')
+        except Exception:
+            pass
+        if m.tell() != start:
+            fail('read-error-moved', f'a read at {start} that was refused by the second piece left the position at {m.tell()}', start, m.tell())
+
+
 def gen_cases(ctx, rng):
+    for i in range(ctx.n(30, 600)):
+        yield dict(cls='merger-edge', edge=rng.choice(['short', 'short', 'refused']), vseed=rng.randrange(1 << 30))
     n = ctx.n(400, 20000)
     for i in range(n):
         sz = rng.choice([0, 1, 2, 3, 5, 16, 17, 40])
@@ -273,13 +328,13 @@ def gen_cases(ctx, rng):
         blen = off + sz + extra if not short else rng.randrange(off, off + sz + 1)
         yield dict(cls='window', base=pyenv.rbytes(rng, blen).hex(), off=off, sz=sz,
                    ops=fc.gen_ops(rng, sz, rng.randrange(1, 16), spellings=rng.random() < 0.3))
-    for cls in ('nested-window', 'closewrapper', 'merger', 'ctr-on-window', 'twl-on-window', 'cbc-on-window', 'reader-file', 'dpfs-file', 'ivfc-file', 'exefs-entry', 'ncch-fulldec') + READ_ONLY:
-        for i in range(ctx.n(300, 10000) if cls not in ('reader-file', 'dpfs-file', 'ivfc-file', 'ncch-fulldec') else ctx.n(60, 1500)):
+    for cls in ('nested-window', 'closewrapper', 'merger', 'ctr-on-window', 'twl-on-window', 'cbc-on-window', 'reader-file', 'dpfs-file', 'ivfc-file', 'exefs-entry', 'ncch-fulldec', 'ncch-exefs-overlap') + READ_ONLY:
+        for i in range(ctx.n(300, 10000) if cls not in ('reader-file', 'dpfs-file', 'ivfc-file', 'ncch-fulldec', 'ncch-exefs-overlap') else ctx.n(60, 1500)):
             sz = rng.choice([0, 1, 2, 3, 5, 16, 17, 40])
             if cls == 'cbc-on-window':
                 sz = rng.choice([0, 16, 32, 48, 80])
             yield dict(cls=cls, sz=sz, vseed=rng.randrange(1 << 30),
-                       ops=fc.gen_ops(rng, sz, rng.randrange(1, 16), writable=(cls not in ('merger', 'cbc-on-window', 'reader-file') + READ_ONLY),
+                       ops=fc.gen_ops(rng, sz, rng.randrange(1, 16), writable=(cls not in ('merger', 'cbc-on-window', 'reader-file', 'ncch-exefs-overlap') + READ_ONLY),
                                       refused_writes=cls in READ_ONLY, spellings=cls in SPELLED))
 
 
@@ -302,7 +357,9 @@ def run_cases(ctx, cases):
     try:
         for case in cases:
             ctx.case(case)
-            if case['cls'] == 'window':
+            if case['cls'] == 'merger-edge':
+                merger_edge_case(ctx, case)
+            elif case['cls'] == 'window':
                 case_window(ctx, mr, case)
             else:
                 case_oracle(ctx, case, mr)
